@@ -69,6 +69,8 @@ def run(report, tier, seed):
         xlabs.append(codeclab.Lab(sc, ybin, 3001, modelgen.Gen(seed * 100129 + 3001), pkg=modelgen.padding_package(), ndjson=False).prepare())
         # arrays of every element encoding: shape, rank and element order are part of the plan, whatever layout a language keeps the array in
         xlabs.append(codeclab.Lab(sc, ybin, 3003, modelgen.Gen(seed * 100129 + 3003), pkg=modelgen.arrays_package(), ndjson=False).prepare())
+        # one generic record instantiated with type arguments that share their outermost constructor (float* / double*, int? / string?, ...)
+        xlabs.append(codeclab.Lab(sc, ybin, 3004, modelgen.Gen(seed * 100129 + 3004), pkg=modelgen.instantiations_package(), ndjson=False).prepare())
         if not quick:
             xlabs.append(codeclab.Lab(sc, ybin, 3000, modelgen.Gen(seed * 100129 + 3000), pkg=modelgen.directed_package(), ndjson=False).prepare())
         for lab in xlabs:
